@@ -366,7 +366,9 @@ bool array_file_op(Ctx &c, const Op &op, int oi, vnadata_t **obj, ArrayModel *mo
 	    if (rc == 0 && crc == 0) c.count("probe.save_ok_despite_fault");
 	}
 	sync_sticky();
-	if (rc == 0 && crc == 0 && !fired) {
+	// a save that reports success (and whose stream closed cleanly) must have written the whole
+	// file, fault or no fault: an absorbed write error would otherwise pass as success
+	if (rc == 0 && crc == 0) {
 	    SavedFile sf;
 	    sf.m = m;
 	    sf.filetype = m.filetype;
